@@ -432,3 +432,222 @@ Proof.
       + intros l' Hl'. apply R5. lia.
       + intros l' Hl'. rewrite R6 by lia. reflexivity.
 Qed.
+
+(* ---------- abstraction to layer A ---------- *)
+Definition sent (s : kstate) (id : nat) : rentry :=
+  match dnode s id with
+  | Ok n => {| re_id := id - 1; re_key := match sn_key n with Some k => k | None => [] end; re_val := sn_val n;
+               re_removed := false; re_subs := sn_subs n |}
+  | Err _ => {| re_id := id - 1; re_key := []; re_val := 0%N; re_removed := false; re_subs := [] |}
+  end.
+Definition hsubs (s : kstate) : list nsub := match dnode s HEADER with Ok h => sn_subs h | Err _ => [] end.
+Definition kabs (s : kstate) (C0 : list nat) : rstate :=
+  {| r_ents := map (sent s) C0; r_next := length (k_nodes s) - 1; r_subs := hsubs s; r_iters := [];
+     r_used := k_used s; r_alive := k_alive s |}.
+
+Definition rc4s (rc : Z * Z * Z) : Z * Z * Z * Z := let '(a, b, c) := rc in (a, a, b, c).
+
+Definition kstep_ok (rc : Z * Z * Z) (s : kstate) (C0 : list nat) (o : op) (orc : list Z) : Prop :=
+  exists s' C0' x x' ns,
+    k_step kv_fixed rc s o orc = Ok (s', x, ns) /\
+    a_step skip_before (rc4s rc) (kabs s C0) o = (kabs s' C0', x', ns) /\
+    x = out_wrap x' /\ (SGood s' C0' \/ k_alive s' = false).
+
+Lemma sent_key : forall s id, re_key (sent s id) = nkey s id.
+Proof. intros. unfold sent, nkey. destruct (dnode s id); auto. Qed.
+
+Lemma sent_live : forall s id, is_live (sent s id) = true.
+Proof. intros. unfold sent. destruct (dnode s id); reflexivity. Qed.
+
+Lemma find_unique : forall {A} (p : A -> bool) l y, (forall x, In x l -> p x = true -> x = y) -> In y l -> p y = true -> find p l = Some y.
+Proof.
+  induction l; simpl; intros. contradiction. destruct (p a) eqn:E.
+  - f_equal. apply H; auto.
+  - destruct H0. subst. congruence. apply IHl; auto.
+Qed.
+
+Lemma find_live_sent : forall s C0 k, SGood s C0 ->
+  (forall y, In y C0 -> nkey s y = k -> find_live (map (sent s) C0) k = Some (sent s y)) /\
+  ((forall y, In y C0 -> nkey s y <> k) -> find_live (map (sent s) C0) k = None).
+Proof.
+  intros s C0 k G. unfold find_live. split.
+  - intros y Hy Ky. rewrite find_map_ent.
+    rewrite (find_unique _ C0 y); auto.
+    + intros x Hx Px. rewrite sent_live, sent_key in Px. simpl in Px. apply key_eqb_eq in Px. eapply sgood_key_inj; eauto. congruence.
+    + rewrite sent_live, sent_key. simpl. apply key_eqb_eq. auto.
+  - intros. apply find_all_false. intros e He. apply in_map_iff in He. destruct He as [x [E Hx]]. subst e.
+    rewrite sent_live, sent_key. simpl. apply key_eqb_neq. auto.
+Qed.
+
+(* ---------- updating one node in place (value, key pointer, notifier list) ---------- *)
+Lemma ss_ext : forall {A} (R R' : A -> A -> Prop) l, (forall a b, In a l -> In b l -> R a b -> R' a b) -> StronglySorted R l -> StronglySorted R' l.
+Proof.
+  induction l; intros; constructor; inversion H0; subst.
+  - apply IHl; auto. intros. apply H; auto; right; auto.
+  - apply Forall_forall. intros. eapply Forall_forall in H4; eauto. apply H; auto. left; auto. right; auto.
+Qed.
+
+Definition same_shape (n n' : snode) : Prop :=
+  sn_key n' <> None /\ sn_level n' = sn_level n /\ sn_ref n' = sn_ref n /\ sn_fwd n' = sn_fwd n /\
+  (match sn_key n, sn_key n' with Some a, Some b => a = b | None, None => True | _, _ => False end).
+
+Lemma sgood_put_node : forall s C0 id n n', SGood s C0 -> (id = HEADER \/ In id C0) -> dnode s id = Ok n ->
+  sn_level n' = sn_level n -> sn_ref n' = sn_ref n -> sn_fwd n' = sn_fwd n -> sn_key n' = sn_key n ->
+  SGood (put_node s id n') C0.
+Proof.
+  intros s C0 id n n' G Hid N HL HR HF HK.
+  assert (LT : id < length (k_nodes s)) by (eapply dnode_lt; eauto).
+  assert (KEY : forall x, nkey (put_node s id n') x = nkey s x).
+  { intros. unfold nkey. rewrite dnode_put_node by auto. destruct (Nat.eqb id x) eqn:E; auto. apply Nat.eqb_eq in E. subst. rewrite N, HK. auto. }
+  assert (LVL : forall x, nlvl (put_node s id n') x = nlvl s x).
+  { intros. unfold nlvl. rewrite dnode_put_node by auto. destruct (Nat.eqb id x) eqn:E; auto. apply Nat.eqb_eq in E. subst. rewrite N, HL. auto. }
+  assert (CH : forall l, chain (put_node s id n') C0 l = chain s C0 l).
+  { intros. unfold chain. apply filter_ext_in'. intros. unfold at_level. rewrite LVL. auto. }
+  constructor.
+  - destruct (sg_hdr _ _ G) as [h [H1 [H2 H3]]]. rewrite dnode_put_node by auto. destruct (Nat.eqb id HEADER) eqn:E.
+    + apply Nat.eqb_eq in E. subst id. rewrite N in H1. inversion H1; subst h. exists n'. rewrite HK, HR. auto.
+    + exists h. auto.
+  - intros x Hx. destruct (sg_node _ _ G x Hx) as [m [k [M1 [M2 [M3 [M4 M5]]]]]]. rewrite dnode_put_node by auto.
+    destruct (Nat.eqb id x) eqn:E.
+    + apply Nat.eqb_eq in E. subst x. rewrite N in M1. inversion M1; subst m. exists n', k. rewrite HK, HR, HL. auto.
+    + exists m, k. auto.
+  - destruct (sg_own _ _ G) as [OA OI]. constructor.
+    + intros x m Hx M. rewrite dnode_put_node in M by auto. rewrite darr_put_node. destruct (Nat.eqb id x) eqn:E.
+      * apply Nat.eqb_eq in E. subst x. inversion M; subst m. rewrite HF. eapply OA; eauto.
+      * eapply OA; eauto.
+    + intros x y m1 m2 Hx Hy M1 M2 Q. rewrite dnode_put_node in M1, M2 by auto.
+      destruct (Nat.eqb id x) eqn:E1, (Nat.eqb id y) eqn:E2.
+      * apply Nat.eqb_eq in E1, E2. congruence.
+      * apply Nat.eqb_eq in E1. subst x. inversion M1; subst m1. rewrite HF in Q. eapply OI; eauto.
+      * apply Nat.eqb_eq in E2. subst y. inversion M2; subst m2. rewrite HF in Q. eapply OI; eauto.
+      * eapply OI; eauto.
+  - eapply ss_ext. 2: apply (sg_sorted _ _ G). intros a b _ _. unfold klt. rewrite !KEY. auto.
+  - intros l Hl. rewrite CH. apply (linked_ext s); [intros; eapply fwd_put_node; eauto | apply (sg_linked _ _ G l Hl)].
+  - apply (sg_level _ _ G).
+  - apply (sg_length _ _ G).
+  - apply (sg_iters _ _ G).
+  - apply (sg_alive _ _ G).
+Qed.
+
+Lemma sent_put_node : forall s id n' x, id < length (k_nodes s) ->
+  sent (put_node s id n') x = if Nat.eqb id x then
+     {| re_id := x - 1; re_key := match sn_key n' with Some k => k | None => [] end; re_val := sn_val n'; re_removed := false; re_subs := sn_subs n' |}
+  else sent s x.
+Proof. intros. unfold sent. rewrite dnode_put_node by auto. destruct (Nat.eqb id x) eqn:E; auto. Qed.
+
+Lemma kabs_put_node : forall s C0 id n n' f, SGood s C0 -> In id C0 -> dnode s id = Ok n -> sn_key n' <> None ->
+  f (sent s id) = sent (put_node s id n') id ->
+  kabs (put_node s id n') C0 = set_ents (kabs s C0) (upd_entry (r_ents (kabs s C0)) (re_id (sent s id)) f).
+Proof.
+  intros s C0 id n n' f G Hid N HK Hf. assert (LT : id < length (k_nodes s)) by (eapply dnode_lt; eauto).
+  unfold kabs, set_ents. simpl. f_equal.
+  - unfold upd_entry. rewrite map_map. apply map_ext_in. intros x Hx.
+    assert (RID : forall y, re_id (sent s y) = y - 1) by (intros; unfold sent; destruct (dnode s y); auto).
+    rewrite !RID. destruct (Nat.eqb (x - 1) (id - 1)) eqn:E.
+    + apply Nat.eqb_eq in E. destruct (sg_node _ _ G x Hx) as [_ [_ [_ [_ [_ [_ X0]]]]]]. destruct (sg_node _ _ G id Hid) as [_ [_ [_ [_ [_ [_ I0]]]]]].
+      unfold HEADER in *. assert (x = id) by lia. subst x. auto.
+    + rewrite sent_put_node by auto. replace (Nat.eqb id x) with false; auto. symmetry. apply Nat.eqb_neq. intro; subst. rewrite Nat.eqb_refl in E. discriminate.
+  - unfold put_node. simpl. rewrite upd_length. auto.
+  - unfold hsubs. rewrite dnode_put_node by auto. destruct (sg_node _ _ G id Hid) as [_ [_ [_ [_ [_ [_ I0]]]]]].
+    replace (Nat.eqb id HEADER) with false; auto. symmetry. apply Nat.eqb_neq. auto.
+Qed.
+
+(* ---------- lookup, get, count, notifier bookkeeping, replacement ---------- *)
+Lemma lookup_k : forall s C0 k, SGood s C0 ->
+  exists m, k_lookup s k = Ok m /\
+    match m with Some y => In y C0 /\ nkey s y = k | None => forall y, In y C0 -> nkey s y <> k end.
+Proof.
+  intros. unfold k_lookup. destruct (search_top s C0 true k H) as [R [R1 R2]]. rewrite R1. simpl.
+  destruct R as [[m c] u]. simpl. exists m. split; auto.
+  destruct R2 as [[_ [y [Y1 [Y2 Y3]]]]|[[c' [u' [T1 _]]] AB]].
+  - simpl in Y1. subst m. auto.
+  - inversion T1; subst. apply AB; auto.
+Qed.
+
+Lemma live_kabs : forall s C0, live (kabs s C0) = r_ents (kabs s C0).
+Proof. intros. unfold live. apply filter_all_true. apply forallb_forall. intros e He. simpl in He. apply in_map_iff in He. destruct He as [x [E _]]. subst. apply sent_live. Qed.
+
+Lemma sent_node : forall s id n k, dnode s id = Ok n -> sn_key n = Some k ->
+  sent s id = {| re_id := id - 1; re_key := k; re_val := sn_val n; re_removed := false; re_subs := sn_subs n |}.
+Proof. intros. unfold sent. rewrite H, H0. reflexivity. Qed.
+
+Lemma kstep_get : forall rc s C0 k, SGood s C0 -> kstep_ok rc s C0 (Get k) [].
+Proof.
+  intros. destruct rc as [[e1 e2] e3]. unfold kstep_ok, k_step, a_step. simpl. rewrite (sg_alive _ _ H). simpl.
+  unfold k_get, a_get. destruct (lookup_k s C0 k H) as [m [L1 L2]]. rewrite L1. simpl.
+  destruct (find_live_sent s C0 k H) as [F1 F2]. destruct m as [y|].
+  - destruct L2 as [Y1 Y2]. destruct (sg_node _ _ H y Y1) as [n [ky [N1 [N2 _]]]]. rewrite N1. simpl.
+    rewrite (F1 y Y1 Y2). rewrite (sent_node _ _ _ _ N1 N2). simpl.
+    exists s, C0, (OVal (sn_val n)), (OVal (sn_val n)), []. repeat split; auto.
+  - rewrite (F2 L2). exists s, C0, (OVal 0%N), (OVal 0%N), []. repeat split; auto.
+Qed.
+
+Lemma kstep_count : forall rc s C0, SGood s C0 -> kstep_ok rc s C0 Count [].
+Proof.
+  intros. destruct rc as [[e1 e2] e3]. unfold kstep_ok, k_step, a_step. simpl. rewrite (sg_alive _ _ H). simpl.
+  exists s, C0, (OCount (Z.to_N (k_length s))), (OCount (N.of_nat (length (live (kabs s C0))))), []. repeat split; auto.
+  simpl. rewrite (sg_length _ _ H), wrap_count, live_kabs. simpl. rewrite map_length. auto.
+Qed.
+
+Lemma hsubs_put_node_other : forall s id n', id <> HEADER -> id < length (k_nodes s) -> hsubs (put_node s id n') = hsubs s.
+Proof. intros. unfold hsubs. rewrite dnode_put_node by auto. replace (Nat.eqb id HEADER) with false; auto. symmetry. apply Nat.eqb_neq. auto. Qed.
+
+Lemma kabs_put_header : forall s C0 h h', SGood s C0 -> dnode s HEADER = Ok h ->
+  kabs (put_node s HEADER h') C0 = set_rsubs (kabs s C0) (sn_subs h').
+Proof.
+  intros s C0 h h' G Hh. assert (LT : HEADER < length (k_nodes s)) by (eapply dnode_lt; eauto).
+  unfold kabs, set_rsubs. simpl. f_equal.
+  - apply map_ext_in. intros x Hx. rewrite sent_put_node by auto. destruct (sg_node _ _ G x Hx) as [_ [_ [_ [_ [_ [_ X0]]]]]].
+    replace (Nat.eqb HEADER x) with false; auto. symmetry. apply Nat.eqb_neq. auto.
+  - unfold put_node. simpl. rewrite upd_length. auto.
+  - unfold hsubs. rewrite dnode_put_node by auto. rewrite Nat.eqb_refl. auto.
+Qed.
+
+Lemma kstep_notify_add : forall rc s C0 k fn ev ud, SGood s C0 -> kstep_ok rc s C0 (NotifyAdd k fn ev ud) [].
+Proof.
+  intros rc s C0 k fn ev ud G. destruct rc as [[e1 e2] e3]. unfold kstep_ok, k_step, a_step. simpl. rewrite (sg_alive _ _ G). simpl.
+  unfold k_notify_add, a_notify_add. destruct k as [kk|].
+  - destruct (has_bit ev EV_FREE). { exists s, C0, (ORc e1), (ORc e1), []. repeat split; auto. }
+    destruct (lookup_k s C0 kk G) as [m [L1 L2]]. rewrite L1. simpl.
+    destruct (find_live_sent s C0 kk G) as [F1 F2]. destruct m as [y|].
+    + destruct L2 as [Y1 Y2]. destruct (sg_node _ _ G y Y1) as [n [ky [N1 [N2 [N3 [N4 N5]]]]]]. rewrite N1. simpl.
+      rewrite (F1 y Y1 Y2). rewrite (sent_node _ _ _ _ N1 N2). simpl.
+      destruct (nsub_conflict (sn_subs n) fn ev ud). { exists s, C0, (ORc e3), (ORc e3), []. repeat split; auto. }
+      eexists _, C0, (ORc 0), (ORc 0), []. split; [reflexivity|]. split; [|split; [reflexivity|]].
+      * f_equal. f_equal. symmetry.
+        match goal with |- _ = set_ents _ (upd_entry _ _ ?f) => rewrite (kabs_put_node s C0 y n _ f G Y1 N1) end.
+        { rewrite (sent_node _ _ _ _ N1 N2). reflexivity. }
+        { simpl. rewrite N2. discriminate. }
+        { rewrite sent_put_node by (eapply dnode_lt; eauto). rewrite Nat.eqb_refl. rewrite (sent_node _ _ _ _ N1 N2). simpl. rewrite N2. reflexivity. }
+      * left. eapply sgood_put_node; eauto.
+    + rewrite (F2 L2). exists s, C0, (ORc e1), (ORc e1), []. repeat split; auto.
+  - destruct (sg_hdr _ _ G) as [h [H1 [H2 H3]]]. change (r_subs (kabs s C0)) with (hsubs s). unfold hsubs. unfold HEADER in *. rewrite H1. simpl. rewrite ?H1. simpl.
+    destruct (nsub_conflict (sn_subs h) fn ev ud). { exists s, C0, (ORc e3), (ORc e3), []. repeat split; auto. }
+    eexists _, C0, (ORc 0), (ORc 0), []. split; [reflexivity|]. split; [|split; [reflexivity|]].
+    + f_equal. f_equal. symmetry. erewrite kabs_put_header; eauto.
+    + left. eapply sgood_put_node; eauto.
+Qed.
+
+Lemma kstep_notify_del : forall rc s C0 k fn ev ud, SGood s C0 -> kstep_ok rc s C0 (NotifyDel k fn ev ud) [].
+Proof.
+  intros rc s C0 k fn ev ud G. destruct rc as [[e1 e2] e3]. unfold kstep_ok, k_step, a_step. simpl. rewrite (sg_alive _ _ G). simpl.
+  unfold k_notify_del, a_notify_del. destruct k as [kk|].
+  - destruct (lookup_k s C0 kk G) as [m [L1 L2]]. rewrite L1. simpl.
+    destruct (find_live_sent s C0 kk G) as [F1 F2]. destruct m as [y|].
+    + destruct L2 as [Y1 Y2]. destruct (sg_node _ _ G y Y1) as [n [ky [N1 [N2 [N3 [N4 N5]]]]]]. rewrite N1. simpl.
+      rewrite (F1 y Y1 Y2). rewrite (sent_node _ _ _ _ N1 N2). simpl.
+      destruct (existsb (nsub_match fn ev ud) (sn_subs n)). 2:{ exists s, C0, (ORc e2), (ORc e2), []. repeat split; auto. }
+      eexists _, C0, (ORc 0), (ORc 0), []. split; [reflexivity|]. split; [|split; [reflexivity|]].
+      * f_equal. f_equal. symmetry.
+        match goal with |- _ = set_ents _ (upd_entry _ _ ?f) => rewrite (kabs_put_node s C0 y n _ f G Y1 N1) end.
+        { rewrite (sent_node _ _ _ _ N1 N2). reflexivity. }
+        { simpl. rewrite N2. discriminate. }
+        { rewrite sent_put_node by (eapply dnode_lt; eauto). rewrite Nat.eqb_refl. rewrite (sent_node _ _ _ _ N1 N2). simpl. rewrite N2. reflexivity. }
+      * left. eapply sgood_put_node; eauto.
+    + rewrite (F2 L2). exists s, C0, (ORc e2), (ORc e2), []. repeat split; auto.
+  - destruct (sg_hdr _ _ G) as [h [H1 [H2 H3]]]. change (r_subs (kabs s C0)) with (hsubs s). unfold hsubs. unfold HEADER in *. rewrite H1. simpl. rewrite ?H1. simpl.
+    destruct (existsb (nsub_match fn ev ud) (sn_subs h)). 2:{ exists s, C0, (ORc e2), (ORc e2), []. repeat split; auto. }
+    eexists _, C0, (ORc 0), (ORc 0), []. split; [reflexivity|]. split; [|split; [reflexivity|]].
+    + f_equal. f_equal. symmetry. erewrite kabs_put_header; eauto.
+    + left. eapply sgood_put_node; eauto.
+Qed.
